@@ -57,6 +57,63 @@ def oracle_resolve(raw):
     return split_abs(rp)
 
 
+def oracle_roots(lib_paths):
+    """The library roots the specification speaks about: the stdlib / purelib / platlib directories of this interpreter with
+    symlinks resolved by os.path.realpath - in LIB_PATHS' tuple order (the order matters for the allow-list strip), but NOT
+    taken from LIB_PATHS' own notion of 'resolved'.  Fails closed if LIB_PATHS names other directories than sysconfig does."""
+    want = {os.path.realpath(p) for p in (sysconfig.get_path(n) for n in ("stdlib", "purelib", "platlib")) if p}
+    got = [os.path.realpath(p) for p in lib_paths]
+    if set(got) != want:
+        return [["?LIB_PATHS-differ-from-sysconfig"]]
+    return [split_abs(p) for p in got]
+
+
+def run_filter_light(args):
+    """The default filter judged in a different ENVIRONMENT: this interpreter may have been started through a symlinked
+    prefix and/or with the current directory at the root of the prefix (an ancestor of site-packages).  Nothing is written
+    to the current directory.  A seeded sample of library files under the names sysconfig reports, plus the names with
+    symlinks resolved, under the unset allow-list and two allow-lists."""
+    from monkeytype import config as mtconfig
+    from monkeytype.config import default_code_filter
+    rnd = random.Random(args["seed"] + 5)
+    warnings.simplefilter("ignore")
+    roots_unres, files = library_files()
+    lib_paths = [str(p) for p in mtconfig.LIB_PATHS]
+    base = compile("def f(x):\n    return x\n", "x.py", "exec", dont_inherit=True)
+    names = rnd.sample(files, min(len(files), args.get("n_light", 150)))
+    by_root = {}
+    for f in files:
+        for r in roots_unres:
+            if f.startswith(r + os.sep):
+                by_root.setdefault(r, f)
+    names += list(by_root.values())
+    names += [os.path.realpath(f) for f in names[:40]]
+    names += [os.path.join(os.getcwd(), "not_a_library_file.py"), "/nonexistent_project/app.py", "relative_app.py", "<string>"]
+    cases = []
+    n_eval = 0
+    for env in (None, "json,email", "site-packages"):
+        if env is None:
+            os.environ.pop("MONKEYTYPE_TRACE_MODULES", None)
+        else:
+            os.environ["MONKEYTYPE_TRACE_MODULES"] = env
+        default_code_filter.cache_clear()
+        for nm in names:
+            c = base.replace(co_filename=nm)
+            try:
+                a = default_code_filter(c)
+                a = a if isinstance(a, bool) else "non-bool:" + repr(a)
+            except Exception as e:
+                a = "raised:" + repr(e)
+            n_eval += 1
+            res = "synthetic-not-resolved" if (not nm or nm[0] == "<") else oracle_resolve(nm)
+            cases.append({"raw": nm, "resolved": res, "env": env, "names": None if env is None else env.split(","), "impl": a,
+                          "n_code": 1, "kind": "environment",
+                          "note": f"interpreter {sys.executable} (sys.prefix {sys.prefix}), current directory {os.getcwd()}"})
+    os.environ.pop("MONKEYTYPE_TRACE_MODULES", None)
+    return {"roots": oracle_roots(lib_paths), "roots_str": lib_paths, "cases": cases, "executable": sys.executable,
+            "prefix": sys.prefix, "cwd": os.getcwd(), "stats": {"filter_calls": n_eval}}
+
+
 def library_files():
     roots = sorted({sysconfig.get_path(n) for n in ["stdlib", "purelib", "platlib"]} - {None})
     files = []
@@ -388,7 +445,7 @@ def run_filter(args):
     stats["filter_calls"] = n_eval
     stats["distinct_filenames"] = len(groups)
     stats["files_with_inconsistent_answers"] = inconsistent
-    return {"roots": [split_abs(p) for p in lib_paths], "roots_str": lib_paths, "envs": envs, "cases": cases,
+    return {"roots": oracle_roots(lib_paths), "roots_str": lib_paths, "envs": envs, "cases": cases,
             "stats": stats, "cwd": work}
 
 
@@ -449,7 +506,10 @@ def run_logger(args):
 
 def main():
     args = json.load(open(sys.argv[1]))
-    res = {"filter": run_filter(args), "logger": run_logger(args)}
+    if args.get("light"):
+        res = {"filter": run_filter_light(args)}
+    else:
+        res = {"filter": run_filter(args), "logger": run_logger(args)}
     with open(sys.argv[2], "w") as f:
         json.dump(res, f)
 
